@@ -6,7 +6,7 @@ mixed sides refused, and is_expired the model's `expired`.
 
 Accepted subset (anything else raises Unsupported => the tie is reported broken):
   statements: docstring, `if/elif/else`, `return <expr>`, `raise Cls(...)`, `other = cast(Order, other)`,
-              `self._check_comparability(other)`, one level of nested `def` (inlined at its calls)
+              `self._check_comparability(other)`, one level of nested `def` (inlined at its calls), `x = <value or test>` to a fresh local
   expressions: True/False, the flag `gt`, not/and/or, `x if c else y`, `self.is_buy`,
               comparisons == != < > <= >= between two attribute reads of the same field, truthiness of an Optional number, `f is None` / `is not None`,
               `kind ==/!= MARKET_ORDER|LIMIT_ORDER`, `self.__class__ != other.__class__` (modelled: always the same class),
@@ -39,6 +39,8 @@ def value(e, env):
         return (f"({f} {env[e.value.id][0]})", ty)
     if isinstance(e, ast.Name) and e.id in env and env[e.id][1] == "int":
         return (f"(Some {env[e.id][0]})", "oz")
+    if isinstance(e, ast.Name) and e.id in env and env[e.id][1] in ("oz", "oq", "b", "k"):
+        return env[e.id]                                   # a local bound by `x = <value>`
     if isinstance(e, ast.Name) and e.id in ("MARKET_ORDER", "LIMIT_ORDER"):
         return (e.id, "k")
     if isinstance(e, ast.BinOp) and isinstance(e.op, ast.Add):
@@ -61,8 +63,10 @@ def expr(e, env):
         return f"(pnot {expr(e.operand, env)})"
     if isinstance(e, ast.Constant) and isinstance(e.value, bool):
         return "(POk true)" if e.value else "(POk false)"
-    if isinstance(e, ast.Name) and e.id in env and env[e.id][1] == "bool":
+    if isinstance(e, ast.Name) and e.id in env and env[e.id][1] in ("bool", "b"):
         return f"(POk {env[e.id][0]})"
+    if isinstance(e, ast.Name) and e.id in env and env[e.id][1] == "pb":
+        return env[e.id][0]                                # a local bound to a test (may hold a raised exception)
     if isinstance(e, ast.Attribute):
         t, ty = value(e, env)
         if ty == "b":
@@ -141,6 +145,18 @@ def stmts(body, env, helpers, cont):
             and isinstance(s.value, ast.Call) and getattr(s.value.func, "id", None) == "cast"
             and len(s.value.args) == 2 and getattr(s.value.args[1], "id", None) == "other"):
         return stmts(rest, env, helpers, cont)
+    if isinstance(s, (ast.Assign, ast.AnnAssign)):
+        # `x = <value or test>` to a fresh local (extract-variable refactorings)
+        tgt = s.targets[0] if isinstance(s, ast.Assign) and len(s.targets) == 1 else getattr(s, "target", None)
+        if isinstance(tgt, ast.Name) and s.value is not None and tgt.id not in env and tgt.id not in ("self", "other", "gt", "time"):
+            try:
+                t, ty = value(s.value, env)
+            except Unsupported:
+                t, ty = expr(s.value, env), "pb"
+            env2 = dict(env)
+            env2[tgt.id] = (f"v_{tgt.id}", ty)
+            return f"(let v_{tgt.id} := {t} in\n {stmts(rest, env2, helpers, cont)})"
+        raise Unsupported("assignment " + ast.unparse(s)[:100])
     if isinstance(s, ast.FunctionDef):
         if helpers.get("__depth", 0) >= 1 or s.decorator_list:
             raise Unsupported("nested helper in a nested helper")
